@@ -305,6 +305,9 @@ func (r *runner) doStep(st Step) {
 	case "sendfail":
 		r.rec.Log("SendFailArmed")
 		r.ch.FailSends()
+	case "sendheal": // the failure was transient
+		r.rec.Log("SendHealed")
+		r.ch.HealSends()
 	case "ctxend":
 		if dl, ok := r.opDl[st.Op]; ok {
 			r.rec.Log("CtxEnd", "op", st.Op, "kind", "deadline")
